@@ -1,26 +1,30 @@
 SPEC = {
     "id": "C44",
-    "level": "other",
+    "level": "proof",
     "lean_modules": ["PallasVerif.Props.C44"],
     "required_theorems": ["bigint_exact", "bigint_small_as_int", "bigint_large_as_bytes", "bigint_result_fits", "u64_exact",
-                          "u64_int_fits", "i64_exact", "datum_map_preserves", "unfixed_truncates_at_witness"],
-    "streams": [{"name": "u5c", "quick": 200, "thorough": 100000}],
-    "rule": "file cases: blocks (*.block) and transactions (*.tx) of test_data through map_block / map_tx of BOTH schema versions "
+                          "u64_int_fits", "i64_exact", "datum_map_preserves", "unfixed_truncates_at_witness", "map_tx_preserves", "map_block_preserves",
+                          "mapOutput_preserves", "mapTxDatum_preserves", "input_index_truncates_at_witness"],
+    "streams": [{"name": "u5c", "quick": 200, "thorough": 30000}],
+    "rule": "txview cases: for every transaction (quick: the first 4 of each block of a 36-file window; thorough: all) of the test_data blocks and tx files, and for 2 generated Conway transactions per generated case (txbuilder: 1-3 inputs, outputs with u64-edge coins, assets incl. quantities above 2^63, datum hash / inline datum trees, native / Plutus script refs, mint incl. i64::MIN/MAX, collateral + return, reference inputs, validity bounds, witness datums, a spend redeemer), the ledger view read through pallas-traverse is put on the op line, both mappers run on the real transaction, and the canonical rendering of the mapped message is compared with the Lean model of map_tx applied to the view. file cases: blocks (*.block) and transactions (*.tx) of test_data through map_block / map_tx of BOTH schema versions "
             "(quick: a seed-dependent window of 36 of the files; thorough: all), every mapped hash / input / output address, coin, "
             "assets / fee / validity / output datum / witness datum re-extracted with pallas-traverse and compared. Generated cases: "
             "3..8 ops of: Plutus integers (CBOR ints at 0, +-1, 23/24, i64 and u64 edges, random 64-bit, 2^63..2^64, "
             "-2^64..-2^63-1; BigUInt/BigNInt byte strings of 0..12 bytes incl. leading zeros), u64 scalars through the fee and "
             "output coin of a built transaction, i64 scalars through a mint quantity, datum trees (depth <= 3; constr tags 121-127, "
             "1280-1400, 102+alternative, arbitrary tags; maps, arrays, bytes) mapped directly and carried as inline datums of built "
-            "transactions through map_tx. distinct = sha1 of op text; non-trivial = the case maps an integer outside i64 and a "
-            "structured (non-leaf) datum",
+            "transactions through map_tx. distinct = sha1 of op text; non-trivial = the case (a) maps an integer outside i64 or a transaction "
+            "carrying native assets or a mint, and (b) maps a structured (non-leaf) datum or a transaction with inputs and outputs",
     "trusted_base": [
         "Model/U5c.lean is a hand transcription of u64_to_bigint, i64_to_bigint, map_plutus_bigint and the recursive "
         "map_plutus_datum/constr/map/array of pallas-utxorpc/src/shared.rs (one macro body instantiated for v1alpha and v1beta); "
         "tie = stream `u5c`: rendering of the mapped value by both schema versions vs the Lean driver",
-        "NOT modelled, decided by the harness oracle on the test_data corpus and generated transactions only: Mapper::map_tx, "
-        "map_tx_output, map_tx_input, map_block (field projections through pallas-traverse); prost / utxorpc-spec types; the "
-        "oracle reads the source side through the same pallas-traverse accessors the mapper uses",
+        "Model/U5cTx.lean is a hand transcription of map_tx / map_tx_output / map_tx_datum / map_tx_input / map_asset / "
+        "map_any_script / map_redeemer / map_withdrawals / map_block as a projection from the ledger view; tie = `txview` ops of "
+        "stream `u5c` (view extracted with the pallas-traverse accessors the mapper itself calls; the harness checks that the view "
+        "on the op line is the view of the transaction it maps). NOT modelled: pallas-traverse, prost / utxorpc-spec types, "
+        "version-specific extras (original_cbor of outputs and redeemers, v1beta witness redeemers are rendered but v1alpha has "
+        "none), contents of certificates / governance / aux data / pparams, resolved inputs",
     ],
     "assumptions": [
         "datum_map_preserves assumes constructor tags below 2^32 (the schema field is uint32; `tag as u32`); decoded ledger data has "
@@ -28,11 +32,7 @@ SPEC = {
         "TxInput.output_index is uint32 in the schema (`index as u32`): transaction output indexes above 2^32-1 would be truncated; "
         "none occurs in the corpus and the ledger bounds them by the transaction size",
     ],
-    "explanation": "Level `other`: the Lean theorems settle two clauses of the property for all inputs (every Plutus integer is mapped "
-                   "exactly and never truncated; the recursive datum mapping preserves content, by mutual structural induction) and "
-                   "the two scalar helpers; the remaining clauses (hash, inputs, outputs, fee, validity of map_tx / map_block in both "
-                   "versions) are decided by comparison against pallas-traverse on all test_data blocks and transactions and on "
-                   "generated transactions, not proved. Deviation #29 of DESIGN §6 was reproduced by this check on the unchanged tree "
+    "explanation": "Level `proof` (partial): every clause of the property has a Lean theorem over the model of the mapper for all transaction views (map_tx_preserves with bigint_exact / datum_map_preserves / u64_exact inside), tied to both schema versions on the whole test_data corpus and generated transactions; what remains outside is named in the manifest text. Deviation #29 of DESIGN §6 was reproduced by this check on the unchanged tree "
                    "(plutus-integer-not-exact range=above-i64 / below-i64, both versions, also through map_tx output datums) and "
-                   "repaired (`fix: utxorpc maps Plutus integers outside i64 to big-integer bytes`); the model is the repaired code. Self-tests run: (1) u64_to_bigint taking the Int branch for every value (`value as i64` always) -> exit 1, VIOLATION scalar-not-exact op=u64 with the one-op replay `u64 18446744073709551615`; (2) the match in map_plutus_bigint rewritten as if/else-if -> quiet.",
+                   "repaired (`fix: utxorpc maps Plutus integers outside i64 to big-integer bytes`); the model is the repaired code. Self-tests run: (1) u64_to_bigint taking the Int branch for every value (`value as i64` always) -> exit 1, VIOLATION scalar-not-exact op=u64 with the one-op replay `u64 18446744073709551615`; (2) the match in map_plutus_bigint rewritten as if/else-if -> quiet. Self-tests of the map_tx part: (3) validity start / ttl swapped in v1alpha map_tx -> exit 1, VIOLATION mapped-validity-differs version=v1alpha + schema-versions-disagree op=map_tx; (4) v1beta map_asset if/else rewritten as a match -> quiet.",
 }
